@@ -1,13 +1,14 @@
-"""C15 finding (not fixed): picked_protein on a peptide table whose row labels repeat.
+"""C15 finding, repaired in /repo by d0dad84: picked_protein on a peptide table whose row labels repeat.
 
 A peptide table assembled with pd.concat([...]) (no ignore_index) carries every label once per part.
 utils.groupby_max returns the LABELS of the winning rows and picked_protein fetches them with
-prots.loc[prot_idx, ...]: every row that shares its label with a winner is returned as well.  The result then has
+prots.loc[prot_idx, ...]: every row that shared its label with a winner was returned as well.  The result then had
 several entries for one target/decoy protein pair, among them peptides that are not the best of their pair.
-With the same rows labelled 0..n-1 the answer is right.
+With the same rows labelled 0..n-1 the answer was right.  Since d0dad84 picked_protein relabels its trimmed copy of
+the table 0..n-1 (reset_index(drop=True)), so the winners are selected by position whatever the caller's labels are.
 
-Exit status 1 while the defect is present.
-Run: PYTHONPATH=/repo /venv/bin/python repo_fixes/C15-finding-repeated-row-labels.py"""
+Exit status 1 while the defect is present, 0 on the repaired tree (same entries as with labels 0..n-1).
+Run: PYTHONPATH=/repo /venv/bin/python repo_fixes/F30-repro-repeated-row-labels.py"""
 import logging
 import sys
 import tempfile
@@ -35,6 +36,7 @@ cols = ["mokapot protein group", "best peptide", "score"]
 print("labels 0..n-1 :", sorted(map(tuple, ref[cols].values.tolist())))
 print("labels as concatenated:", sorted(map(tuple, got[cols].values.tolist())))
 pairs = got["mokapot protein group"].str.replace("decoy_", "", regex=False)
-bad = len(got) != len(ref) or pairs.duplicated().any()
+bad = len(got) != len(ref) or pairs.duplicated().any() or \
+    sorted(map(tuple, got[cols].values.tolist())) != sorted(map(tuple, ref[cols].values.tolist()))
 print("several entries for one protein pair" if bad else "one entry per protein pair")
 sys.exit(1 if bad else 0)
